@@ -27,7 +27,7 @@ for L in P Q R; do
       src/dp*|src/flp/types/dp.rs) checks="$checks C16";;
     esac
   done
-  checks=$(echo $checks | tr ' ' '\n' | sort -u | tr '\n' ' ')
+  checks=$(echo $checks | tr " " "\n" | awk "!s[\$0]++" | head -4 | tr "\n" " ")
   : > $D/result.txt
   for c in $checks; do
     out=$(DEV_SLOT=ben DEV_SRC=${DEV_SRC:-/tmp/vdet} DEV_PATCH=$D/patch.diff /verif/tools_dev.sh $c quick 2>&1); code=$?
